@@ -51,10 +51,10 @@ def main():
         "setup_cmd": "bin/vpc setup",
         "hooks": {
             "guard": "--cfg varpulis_verif",
-            "enable": "RUSTFLAGS=\"--cfg varpulis_verif\" (set by vplib/harness.py for every harness build)",
+            "enable": "RUSTFLAGS=\"--cfg varpulis_verif\" (set by vplib/harness.py for every harness build); hooks are additions under #[cfg(varpulis_verif)] except the three clock hooks, which route existing Instant::now() calls through a function that is Instant::now() when the guard is off",
             "baseline_off_cmd": "cd /repo && cargo nextest run --workspace --no-fail-fast --test-threads 8 --offline",
             "source_commits": hooks_commits,
-            "add_only": True,
+            "add_only": False,
         },
         "engines": [{
             "name": "coq-model+differential",
